@@ -163,7 +163,10 @@ pub fn run(ctx: &Ctx, rep: &mut Report) {
                         "balance+1" => have + 1,
                         _ => 1 + rng.below(have.max(1) as u64 + 2) as i128,
                     };
-                    let ghave = w.model.balance(&w.gas.addr, &user);
+                    // sometimes the gas is paid in the very token that is being transferred
+                    let gas_same = !t.probe && rng.chance(1, 6);
+                    let gas_addr_sel = if gas_same { t.addr.clone() } else { w.gas.addr.clone() };
+                    let ghave = if gas_same { (have - amount.max(0)).max(0) } else { w.model.balance(&gas_addr_sel, &user) };
                     let gclass = *rng.pick(GAS);
                     let gas_amount: i128 = match gclass {
                         "zero" => 0,
@@ -199,7 +202,10 @@ pub fn run(ctx: &Ctx, rep: &mut Report) {
                     let refused = t.probe && probe_refuses;
                     let want = !unauth && amount > 0 && have >= amount && dest_trusted && gas_amount > 0 && ghave >= gas_amount && !refused;
                     rep.step(format!("outbound {} amount={}({}) gas={}({}) dest={:?}({}) data={} auth={} want={}", t.label, amount, aclass, gas_amount, gclass, lossy(&dest), dclass, data.is_some(), !unauth, want));
-                    let gas_addr = w.gas.addr.clone();
+                    let gas_addr = gas_addr_sel.clone();
+                    if gas_same {
+                        rep.count("gas-token:same-as-transferred");
+                    }
                     let o = w.do_transfer(&user, &t.id, &dest, &dest_addr, amount, data.clone(), &gas_addr, gas_amount, auth);
                     rep.count("op:outbound");
                     rep.count(&format!("amount:{}", aclass));
@@ -493,7 +499,8 @@ pub fn run(ctx: &Ctx, rep: &mut Report) {
         req.push(format!("token:{}", l));
     }
     req.push("offline-conservation-checked".into());
+    req.push("gas-token:same-as-transferred".into());
     rep.notes.insert("required".into(), json!(req));
     rep.notes.insert("token_mode".into(), json!("native"));
-    rep.notes.insert("rule".into(), json!("universes of 36 operations over 2 service-deployed tokens (tree code; one with initial supply, one with a designated minter), 3 registered canonical tokens (asset contract, stand-alone interchain token, probe token that can refuse), 4 users: outbound transfers with amount in {0, -1, 1, balance, balance+1, random}, gas in {0, -1, 1, all the payer has, one more}, destination in {trusted, never trusted, removed, hub chain}, with/without data; approved inbound transfers (1, exact custody, custody+1, random, 0; with/without data to a destination application that may fail; origin trusted or not); trusted-chain changes; holders' own burns; the designated minter's mints. All balances of all holders (users, service, gas service, application) are compared with the model after every operation; the announced contract_called event is compared with the independent ABI encoding of exactly what was taken, the gas_paid event with that payload's hash and the stated gas; at the end custody = locked - released per canonical token and sum of balances = initial + mints - burns - sent + received per service-deployed token. distinct = (direction, token, amount class, gas class, destination class, outcome)"));
+    rep.notes.insert("rule".into(), json!("universes of 36 operations over 2 service-deployed tokens (tree code; one with initial supply, one with a designated minter), 3 registered canonical tokens (asset contract, stand-alone interchain token, probe token that can refuse), 4 users: outbound transfers with amount in {0, -1, 1, balance, balance+1, random}, gas in {0, -1, 1, all the payer has, one more}, destination in {trusted, never trusted, removed, hub chain}, with/without data, gas sometimes paid in the transferred token itself; approved inbound transfers (1, exact custody, custody+1, random, 0; with/without data to a destination application that may fail; origin trusted or not); trusted-chain changes; holders' own burns; the designated minter's mints. All balances of all holders (users, service, gas service, application) are compared with the model after every operation; the announced contract_called event is compared with the independent ABI encoding of exactly what was taken, the gas_paid event with that payload's hash and the stated gas; at the end custody = locked - released per canonical token and sum of balances = initial + mints - burns - sent + received per service-deployed token. distinct = (direction, token, amount class, gas class, destination class, outcome)"));
 }
